@@ -972,6 +972,10 @@ impl Model {
                     p.ev.push(Ev::Len(bk - f));
                     p.ev.push(Ev::Len(bk - f));
                 }
+                _ if p.r.kind == IT_TYPED_MUT => {
+                    // slice::IterMut is not Clone: report the length instead
+                    p.ev.push(Ev::Len(bk - f));
+                }
                 _ => {
                     // clone advanced once from the front: original unaffected
                     if f == bk {
